@@ -219,6 +219,20 @@ def run(ctx):
                 sim.add(m=10 ** rng.uniform(-6, -3), a=rng.uniform(5, 6), e=0.05, f=rng.uniform(0, 6))
             n = sim.N
             if sim.N_active > sim.N: sim.N_active = -1
+            # ... and the object with that history must continue exactly like a FRESH simulation holding the same
+            # particles and settings (the integer state has to be re-derived from the particles when N changed)
+            fresh = rebound.Simulation(); fresh.G = sim.G; fresh.t = sim.t
+            for p_ in sim.particles: fresh.add(m=p_.m, x=p_.x, y=p_.y, z=p_.z, vx=p_.vx, vy=p_.vy, vz=p_.vz)
+            fresh.integrator = "janus"; fresh.ri_janus.order = order
+            fresh.ri_janus.scale_pos = sp; fresh.ri_janus.scale_vel = sv
+            fresh.gravity = grav; fresh.N_active = sim.N_active; fresh.testparticle_type = sim.testparticle_type; fresh.dt = sim.dt
+            twin = sim.copy()
+            for _ in range(3): twin.step(); fresh.step()
+            ctx.case(key=("history-vs-fresh", order, hist))
+            if any(not vlib.same_bits(a, b) for a, b in zip(state(twin), state(fresh))):
+                fails.append({"integrator": "janus", "order": order, "N": n, "scale_pos": sp, "scale_vel": sv, "dt": dt,
+                              "gravity": grav, "N_active": nact, "testparticle_type": sim.testparticle_type, "history": hist + " then 3 steps: differs from a fresh simulation with the same particles",
+                              "steps": 3, "masses": [p.m for p in sim.particles], "state0": [x.hex() for x in state(sim)]})
         sim.step()                      # first step puts the state on the integer grid
         sim.dt = -dt; sim.step(); sim.dt = dt
         s0 = state(sim); i0 = pint_list(sim)
@@ -297,7 +311,7 @@ def run(ctx):
         sim = rebound.Simulation()
         sim.add(m=1.0)
         f0 = (-rng.uniform(0.5, 0.9 * math.acos(-1.0 / e)) if hyper else rng.uniform(0, 6.28))
-        if edge: f0 = -rng.uniform(0.0, 0.6)
+        if edge: f0 = rng.uniform(-0.6, 0.6)        # incoming and outgoing (at / past pericentre)
         sim.add(m=rng.choice([0.0, 1e-3]), a=a, e=e, f=f0,
                 omega=rng.uniform(0, 6), Omega=rng.uniform(0, 6), inc=rng.uniform(0, 1))
         sim.move_to_com()
